@@ -30,12 +30,17 @@ GRAMMARS = [
     'start = { item ~ (("," | ";") ~ item)* ~ EOI }\nitem = @{ ASCII_DIGIT+ }\nWHITESPACE = _{ "," | ";" }\n',
     'start = { ("a" | "b" | "ab")+ ~ (^"a" | ^"b")? }\n',
     'start = { (^"a" | ^"b")+ ~ ("a" | "b" | "ab")? ~ EOI }\n',
+    # a plain rule reachable from an atomic rule and from a non-atomic one: parsing from one start rule must not
+    # influence a later parse from the other on the same object
+    'start = { SOI ~ pair ~ ("," ~ pair)* ~ EOI }\npair = { key ~ "=" ~ val }\ntoken = @{ pair }\n'
+    'key = { ASCII_ALPHA+ }\nval = { ASCII_DIGIT+ }\nWHITESPACE = _{ " " }\n',
     # the same rule name used as the operand of a skip-until pattern in two grammars
     'start = @{ "[" ~ (!stop ~ ANY)* ~ ">" }\nstop = { "]" }\n',
     'start = { "<" ~ body ~ ">" }\nbody = @{ (!stop ~ ANY)* }\nstop = { ">" | "]" }\n',
 ]
 INPUTS = ["ab  \t cd", "ab  cd", "ab cd", "1,;2", "1,2;3", "abAB", "ABab", "", "a", "ab", "ff!", "xyz", "a1\n", "a b\n", "1, 2.5,3", "1,", "ab=ab", "ab=ac", "wordb", "word", "#c#x\n",
-          "é 5", "g", "A\r\n", "12", "ab ab a", "[ab]", "[ab>", "<ab]", "<ab>"]
+          "é 5", "g", "A\r\n", "12", "ab ab a", "[ab]", "[ab>", "<ab]", "<ab>",
+          "a = 1, b = 2", "a=1,b=2", "\x01token\x01a=1", "\x01token\x01a = 1", "\x01pair\x01a = 1", "\x01pair\x01a=1"]
 MODES = ("I", "O", "IG", "OG")
 
 
@@ -112,7 +117,10 @@ def make(gi: int, mode: str):
 
 
 def call(b, mode: str, text: str, k: int = 0, timeout=2.0):
-    r = b.run(mode, "start", text, k, timeout=timeout)
+    rule = "start"
+    if text.startswith("\x01"):          # "\x01<rule>\x01<text>": parse from another start rule
+        _, rule, text = text.split("\x01", 2)
+    r = b.run(mode, rule, text, k, timeout=timeout)
     return r[:2] if r[0] == "OK" else r
 
 
